@@ -80,4 +80,34 @@ MUTANTS = {
                    "                    if k.startswith('runner_up'):",
                    "                    if k.startswith('runner_up_x'):")],
     },
+    'c08_farthest_ancestor_first': {
+        'checks': ['C08'],
+        'edits': [('type_assignment/marker_cache_v2.py',
+                   '                for ancestor_level in reverse_hier:',
+                   '                for ancestor_level in taxonomy_tree.hierarchy:')],
+    },
+    'c08_patch_drops_own_markers': {
+        'checks': ['C08'],
+        'edits': [('type_assignment/marker_cache_v2.py',
+                   '                new_markers = set(markers)\n',
+                   '                new_markers = set()\n')],
+    },
+    'c08_query_not_cosorted': {
+        'checks': ['C08'],
+        'edits': [('type_assignment/marker_cache_v2.py',
+                   '                these_query = these_query[sorted_dex]\n',
+                   '')],
+    },
+    'c08_min_markers_off_by_one': {
+        'checks': ['C08'],
+        'edits': [('type_assignment/marker_cache_v2.py',
+                   '        if len(query_gene_names.intersection(markers)) < min_markers:',
+                   '        if len(query_gene_names.intersection(markers)) <= min_markers:')],
+    },
+    'c08_root_always_added': {
+        'checks': ['C08'],
+        'edits': [('type_assignment/marker_cache_v2.py',
+                   "                if len(query_gene_names.intersection(new_markers)) \\\n                        < min_markers:\n                    if 'None' in marker_lookup:",
+                   "                if True:\n                    if 'None' in marker_lookup:")],
+    },
 }
